@@ -223,7 +223,7 @@ PROPS = {
                      projection=POS_FREE),
                 dict(suite="parse", n_quick=1500, n_thorough=50000, what="sources x 4 modes", projection=POS_FREE)],
         oracle_n_quick=1500, oracle_n_thorough=50000,
-        explanation="C05: C05_token_ids, C05_duplicate_refused, C05_role_sets, C05_register_effect, C05_infix_like_builtin, C05_prefix_like_builtin, C05_postfix_call_level, C05_groups_by_level, C05_grouping_unique, C05_cfg_ok_reachable, C05_groups_by_level_reachable, C05_groups_by_level_x, C05_grouping_unique_x, C05_cfg_ok_x_reachable, C05_groups_by_level_y, C05_cfg_ok_y_reachable.",
+        explanation="C05: C05_token_ids, C05_duplicate_refused, C05_role_sets, C05_register_effect, C05_infix_like_builtin, C05_prefix_like_builtin, C05_postfix_call_level, C05_groups_by_level, C05_grouping_unique, C05_cfg_ok_reachable, C05_groups_by_level_reachable, C05_groups_by_level_x, C05_grouping_unique_x, C05_cfg_ok_x_reachable, C05_groups_by_level_y, C05_cfg_ok_y_reachable, C05_grouping_unique_y.",
         open_statements=["operands other than identifiers / integer literals / the listed constructs (strings, floats, array / object / function literals) next to an operator registered at a level without a built-in binary operator: oracle only", "level 1 never binds (KF18)"],
     ),
     "C12": dict(
